@@ -10,14 +10,20 @@ Section RrFacts.
   Definition slot_keys (sl : list (option (K * V))) : list K :=
     flat_map (fun o => match o with Some (k, _) => [k] | None => [] end) sl.
 
-  (* the open list is a permutation of the slot numbers, the in-use slots are exactly
-     the first rr_end entries of it, keys are distinct *)
+  (* the open list is a permutation of the slot numbers (length cap, entries < cap,
+     pairwise distinct), the in-use slots are exactly the first rr_end entries of it,
+     keys are distinct, and the number of keyed slots is rr_end *)
   Definition rr_inv (t : Z) (s : rr K V) : Prop :=
     1 <= rr_cap s /\ length (rr_slots s) = rr_cap s /\
-    Permutation (rr_open s) (seq 0 (rr_cap s)) /\ rr_end s <= rr_cap s /\
-    (forall i, i < rr_cap s ->
-               (nth i (rr_slots s) None <> None <-> index_of i (rr_open s) < rr_end s)) /\
-    NoDup (slot_keys (rr_slots s)).
+    length (rr_open s) = rr_cap s /\
+    (forall p, p < rr_cap s -> nth p (rr_open s) 0 < rr_cap s) /\
+    (forall p q, p < rr_cap s -> q < rr_cap s ->
+                 nth p (rr_open s) 0 = nth q (rr_open s) 0 -> p = q) /\
+    rr_end s <= rr_cap s /\
+    (forall p, p < rr_cap s ->
+               (nth (nth p (rr_open s) 0) (rr_slots s) None <> None <-> p < rr_end s)) /\
+    NoDup (slot_keys (rr_slots s)) /\
+    length (slot_keys (rr_slots s)) = rr_end s.
 
   (* an insert that has to evict is handed a draw in [0, size-1] *)
   Definition rr_rnd_ok (s : rr K V) (rnd : list nat) : Prop :=
@@ -40,11 +46,709 @@ Section RrFacts.
     m_has_clear := false
   |}.
 
+  (* ---------------- list helpers: upd_nth, index_of, swap_nth ---------------- *)
+  Lemma upd_nth_length : forall A (l : list A) i x, length (upd_nth i x l) = length l.
+  Proof. induction l as [|y r IH]; intros [|j] x; simpl; auto. Qed.
+
+  Lemma nth_upd_nth_eq : forall A (l : list A) i x d, i < length l -> nth i (upd_nth i x l) d = x.
+  Proof.
+    induction l as [|y r IH]; intros [|j] x d Hi; simpl in *; try lia; auto.
+    apply IH; lia.
+  Qed.
+
+  Lemma nth_upd_nth_neq : forall A (l : list A) i j x d, j <> i -> nth j (upd_nth i x l) d = nth j l d.
+  Proof.
+    induction l as [|y r IH]; intros [|i] [|j] x d Hne; simpl; try congruence; auto.
+  Qed.
+
+  Lemma index_of_spec : forall l x, In x l -> index_of x l < length l /\ nth (index_of x l) l 0 = x.
+  Proof.
+    induction l as [|y r IH]; intros x Hin; simpl in *; [contradiction|].
+    destruct (Nat.eqb_spec x y) as [E|NE].
+    - split; [lia|auto].
+    - destruct Hin as [E|Hin]; [congruence|].
+      destruct (IH _ Hin) as [L N]. split; [lia|auto].
+  Qed.
+
+  Lemma swap_nth_length : forall i j l, length (swap_nth i j l) = length l.
+  Proof. intros. unfold swap_nth. rewrite !upd_nth_length. reflexivity. Qed.
+
+  Lemma nth_swap_nth : forall i j l q, i < length l -> j < length l ->
+    nth q (swap_nth i j l) 0 =
+    if Nat.eqb q j then nth i l 0 else if Nat.eqb q i then nth j l 0 else nth q l 0.
+  Proof.
+    intros i j l q Hi Hj. unfold swap_nth.
+    destruct (Nat.eqb_spec q j) as [E|NE].
+    - subst q. rewrite nth_upd_nth_eq; auto. rewrite upd_nth_length; auto.
+    - rewrite nth_upd_nth_neq by auto.
+      destruct (Nat.eqb_spec q i) as [E'|NE'].
+      + subst q. rewrite nth_upd_nth_eq; auto.
+      + rewrite nth_upd_nth_neq; auto.
+  Qed.
+
+  (* a duplicate-free list of n numbers below n contains every number below n *)
+  Lemma perm_nth_surj : forall (l : list nat) n, length l = n ->
+    (forall p, p < n -> nth p l 0 < n) ->
+    (forall p q, p < n -> q < n -> nth p l 0 = nth q l 0 -> p = q) ->
+    forall i, i < n -> In i l.
+  Proof.
+    intros l n Hlen Hb Hinj i Hi.
+    assert (ND : NoDup l).
+    { apply (NoDup_nth l 0). intros a b Ha Hb'. apply Hinj; lia. }
+    assert (I1 : incl l (seq 0 n)).
+    { intros x Hx. apply (In_nth _ _ 0) in Hx. destruct Hx as (p & Hp & E). subst x.
+      apply in_seq. specialize (Hb p). lia. }
+    assert (I2 : incl (seq 0 n) l).
+    { apply NoDup_length_incl; auto. rewrite seq_length. lia. }
+    apply I2. apply in_seq. lia.
+  Qed.
+
+  (* ---------------- slot array: keys, lookup ---------------- *)
+  Definition okeys (o : option (K * V)) : list K :=
+    match o with Some (k, _) => [k] | None => [] end.
+
+  Lemma slot_keys_cons : forall o r, slot_keys (o :: r) = okeys o ++ slot_keys r.
+  Proof. reflexivity. Qed.
+
+  Lemma nth_some_lt : forall (sl : list (option (K * V))) i x,
+    nth i sl None = Some x -> i < length sl.
+  Proof.
+    intros sl i x E. destruct (lt_dec i (length sl)) as [L|L]; auto.
+    rewrite nth_overflow in E by lia. discriminate.
+  Qed.
+
+  Lemma slot_keys_upd : forall sl i x, i < length sl ->
+    exists l1 l2, slot_keys sl = l1 ++ okeys (nth i sl None) ++ l2 /\
+                  slot_keys (upd_nth i x sl) = l1 ++ okeys x ++ l2.
+  Proof.
+    induction sl as [|o r IH]; intros i x Hi; simpl in Hi; [lia|].
+    destruct i as [|i].
+    - exists [], (slot_keys r). split; reflexivity.
+    - destruct (IH i x) as (l1 & l2 & E1 & E2); [lia|].
+      exists (okeys o ++ l1), l2.
+      change (upd_nth (S i) x (o :: r)) with (o :: upd_nth i x r).
+      change (nth (S i) (o :: r) None) with (nth i r None).
+      rewrite !slot_keys_cons, E1, E2, <- !app_assoc. split; reflexivity.
+  Qed.
+
+  Lemma in_slot_keys : forall (sl : list (option (K * V))) k,
+    In k (slot_keys sl) <-> exists i v, nth i sl None = Some (k, v).
+  Proof.
+    induction sl as [|o r IH]; intros k.
+    - simpl. split; [contradiction|]. intros (i & v & E). destruct i; discriminate.
+    - rewrite slot_keys_cons, in_app_iff, IH. split.
+      + intros [I | (i & v & E)].
+        * destruct o as [[k' v']|]; simpl in I; [|contradiction].
+          destruct I as [E|[]]. subst k'. exists 0, v'. reflexivity.
+        * exists (S i), v. exact E.
+      + intros (i & v & E). destruct i as [|i]; simpl in E.
+        * subst o. left. simpl. auto.
+        * right. eauto.
+  Qed.
+
+  Lemma lookup_from_some : forall (sl : list (option (K * V))) b k j v,
+    rr_lookup_from b sl k = Some (j, v) -> b <= j /\ nth (j - b) sl None = Some (k, v).
+  Proof.
+    induction sl as [|o r IH]; intros b k j v E; simpl in E; [discriminate|].
+    destruct o as [[k' v']|].
+    - destruct (eqb_spec k k') as [Ek|Nk].
+      + inversion E; subst. rewrite Nat.sub_diag. split; [lia|reflexivity].
+      + apply IH in E. destruct E as [L E]. split; [lia|].
+        replace (j - b) with (S (j - S b)) by lia. exact E.
+    - apply IH in E. destruct E as [L E]. split; [lia|].
+      replace (j - b) with (S (j - S b)) by lia. exact E.
+  Qed.
+
+  Lemma lookup_from_none : forall (sl : list (option (K * V))) b k,
+    rr_lookup_from b sl k = None <-> ~ In k (slot_keys sl).
+  Proof.
+    induction sl as [|o r IH]; intros b k.
+    - simpl. split; auto.
+    - rewrite slot_keys_cons, in_app_iff. simpl rr_lookup_from.
+      destruct o as [[k' v']|]; simpl okeys.
+      + destruct (eqb_spec k k') as [Ek|Nk].
+        * split; [discriminate|]. intros N. exfalso. apply N. left. left. auto.
+        * rewrite IH. split.
+          -- intros N [[E|[]]|I]; [congruence|auto].
+          -- intros N I. apply N. right. exact I.
+      + rewrite IH. split.
+        * intros N [[]|I]. auto.
+        * intros N I. apply N. right. exact I.
+  Qed.
+
+  Lemma lookup_from_nth : forall (sl : list (option (K * V))) b i k v, NoDup (slot_keys sl) ->
+    nth i sl None = Some (k, v) -> rr_lookup_from b sl k = Some (b + i, v).
+  Proof.
+    induction sl as [|o r IH]; intros b i k v ND E.
+    - destruct i; discriminate.
+    - destruct i as [|i]; simpl in E.
+      + subst o. simpl. destruct (eqb_spec k k) as [_|N]; [|congruence].
+        f_equal. f_equal. lia.
+      + rewrite slot_keys_cons in ND. simpl rr_lookup_from.
+        destruct o as [[k' v']|]; simpl in ND.
+        * inversion ND as [|x l NI ND']; subst.
+          destruct (eqb_spec k k') as [Ek|Nk].
+          -- subst k'. exfalso. apply NI. apply in_slot_keys. eauto.
+          -- rewrite (IH (S b) i k v ND' E). f_equal. f_equal. lia.
+        * rewrite (IH (S b) i k v ND E). f_equal. f_equal. lia.
+  Qed.
+
+  Lemma slots_key_inj : forall sl i j k v v', NoDup (slot_keys sl) ->
+    nth i sl None = Some (k, v) -> nth j sl None = Some (k, v') -> i = j.
+  Proof.
+    intros sl i j k v v' ND Ei Ej.
+    pose proof (lookup_from_nth sl 0 i k v ND Ei) as Li.
+    pose proof (lookup_from_nth sl 0 j k v' ND Ej) as Lj.
+    rewrite Li in Lj. inversion Lj. reflexivity.
+  Qed.
+
+  Lemma lookup_upd_other : forall (sl : list (option (K * V))) i x b k,
+    (forall v, nth i sl None <> Some (k, v)) -> (forall v, x <> Some (k, v)) ->
+    rr_lookup_from b (upd_nth i x sl) k = rr_lookup_from b sl k.
+  Proof.
+    induction sl as [|o r IH]; intros i x b k H1 H2.
+    - destruct i; reflexivity.
+    - destruct i as [|i]; simpl.
+      + simpl in H1.
+        assert (Ex : rr_lookup_from b (x :: r) k = rr_lookup_from (S b) r k).
+        { simpl. destruct x as [[kx vx]|]; auto.
+          destruct (eqb_spec k kx) as [E|N]; auto. subst kx. exfalso. eapply H2. reflexivity. }
+        assert (Eo : rr_lookup_from b (o :: r) k = rr_lookup_from (S b) r k).
+        { simpl. destruct o as [[ko vo]|]; auto.
+          destruct (eqb_spec k ko) as [E|N]; auto. subst ko. exfalso. eapply H1. reflexivity. }
+        simpl in Ex, Eo. rewrite Ex, Eo. reflexivity.
+      + destruct o as [[ko vo]|].
+        * destruct (eqb k ko); auto.
+        * apply IH; auto.
+  Qed.
+
+  Lemma slot_keys_erase : forall sl i ki vi, NoDup (slot_keys sl) ->
+    nth i sl None = Some (ki, vi) ->
+    NoDup (slot_keys (upd_nth i None sl)) /\
+    S (length (slot_keys (upd_nth i None sl))) = length (slot_keys sl) /\
+    ~ In ki (slot_keys (upd_nth i None sl)).
+  Proof.
+    intros sl i ki vi ND E.
+    destruct (slot_keys_upd sl i None) as (l1 & l2 & E1 & E2).
+    { eapply nth_some_lt; eauto. }
+    rewrite E in E1. simpl in E1, E2. rewrite E1 in ND. rewrite E1, E2.
+    split; [eapply NoDup_remove_1; eauto|]. split.
+    - rewrite !app_length. simpl. lia.
+    - eapply NoDup_remove_2; eauto.
+  Qed.
+
+  Lemma slot_keys_claim : forall sl i k v, NoDup (slot_keys sl) -> i < length sl ->
+    nth i sl None = None -> ~ In k (slot_keys sl) ->
+    NoDup (slot_keys (upd_nth i (Some (k, v)) sl)) /\
+    length (slot_keys (upd_nth i (Some (k, v)) sl)) = S (length (slot_keys sl)).
+  Proof.
+    intros sl i k v ND Hi E NI.
+    destruct (slot_keys_upd sl i (Some (k, v)) Hi) as (l1 & l2 & E1 & E2).
+    rewrite E in E1. simpl in E1, E2. rewrite E1 in ND, NI. rewrite E1, E2. split.
+    - eapply Permutation_NoDup; [apply Permutation_middle|]. constructor; auto.
+    - rewrite !app_length. simpl. lia.
+  Qed.
+
+  Lemma slot_keys_update : forall sl i k v v0, nth i sl None = Some (k, v0) ->
+    slot_keys (upd_nth i (Some (k, v)) sl) = slot_keys sl.
+  Proof.
+    intros sl i k v v0 E.
+    destruct (slot_keys_upd sl i (Some (k, v))) as (l1 & l2 & E1 & E2).
+    { eapply nth_some_lt; eauto. }
+    rewrite E in E1. simpl in E1, E2. congruence.
+  Qed.
+
+  Lemma slot_keys_repeat_none : forall n, slot_keys (repeat None n) = [].
+  Proof. induction n; simpl; auto. Qed.
+
+  (* ---------------- rr_get in terms of the slot array ---------------- *)
+  Lemma rr_get_none_iff : forall (s : rr K V) k,
+    rr_get s k = None <-> ~ In k (slot_keys (rr_slots s)).
+  Proof.
+    intros s k. rewrite <- (lookup_from_none (rr_slots s) 0 k).
+    unfold rr_get, rr_find, rr_lookup.
+    destruct (rr_lookup_from 0 (rr_slots s) k) as [[i v]|]; split; intros E; try discriminate; auto.
+  Qed.
+
+  Lemma rr_get_nth : forall (s : rr K V) i k v, NoDup (slot_keys (rr_slots s)) ->
+    nth i (rr_slots s) None = Some (k, v) -> rr_get s k = Some (v, None).
+  Proof.
+    intros s i k v ND E. unfold rr_get, rr_find, rr_lookup.
+    rewrite (lookup_from_nth _ 0 i k v ND E). reflexivity.
+  Qed.
+
+  Lemma rr_get_some : forall (s : rr K V) k x, rr_get s k = Some x ->
+    exists i v, x = (v, None) /\ nth i (rr_slots s) None = Some (k, v).
+  Proof.
+    unfold rr_get, rr_find, rr_lookup. intros s k x.
+    destruct (rr_lookup_from 0 (rr_slots s) k) as [[i v]|] eqn:L; [|discriminate].
+    intros E; inversion E; subst. apply lookup_from_some in L. destruct L as [_ L].
+    rewrite Nat.sub_0_r in L. eauto.
+  Qed.
+
+  Lemma rr_get_congr : forall (s s' : rr K V) k,
+    rr_lookup_from 0 (rr_slots s') k = rr_lookup_from 0 (rr_slots s) k ->
+    rr_get s' k = rr_get s k.
+  Proof. intros s s' k E. unfold rr_get, rr_find, rr_lookup. rewrite E. reflexivity. Qed.
+
+  Lemma rr_no_deadk : forall (s : rr K V) now k, ~ deadk (rr_get s) now k.
+  Proof.
+    intros s now k (v & d & E & _). apply rr_get_some in E.
+    destruct E as (i & v' & E & _). discriminate.
+  Qed.
+
+  Lemma rr_view_eq : forall (s : rr K V) now k, rr_view s now k = view_of (rr_get s) now k.
+  Proof. intros. unfold rr_view, view_of, rr_get. destruct (rr_find s k); reflexivity. Qed.
+
+  Lemma rr_inv_t : forall t t' (s : rr K V), rr_inv t s -> rr_inv t' s.
+  Proof. intros t t' s I. exact I. Qed.
+
+  (* ---------------- the invariant ---------------- *)
   Lemma rr_inv_init : forall cap t, 1 <= cap -> rr_inv t (rr_init cap).
-  Admitted.
+  Proof.
+    intros cap t Hc. unfold rr_inv, rr_init; simpl.
+    rewrite repeat_length, seq_length, slot_keys_repeat_none.
+    repeat split; auto; try lia.
+    - intros p Hp. rewrite seq_nth by lia. lia.
+    - intros p q Hp Hq. rewrite !seq_nth by lia. lia.
+    - intros N. exfalso. apply N. apply nth_repeat.
+    - constructor.
+  Qed.
+
+  Lemma rr_inv_in_open : forall t (s : rr K V) i, rr_inv t s -> i < rr_cap s ->
+    index_of i (rr_open s) < rr_cap s /\ nth (index_of i (rr_open s)) (rr_open s) 0 = i.
+  Proof.
+    intros t s i (Hc1 & Hls & Hlo & Hob & Hoi & Hec & Hiff & Hnd & Hlen) Hi.
+    rewrite <- Hlo at 1. apply index_of_spec. eapply perm_nth_surj; eauto.
+  Qed.
+
+  (* when full, every slot is in use *)
+  Lemma rr_inv_full_slot : forall t (s : rr K V) r, rr_inv t s -> rr_end s = rr_cap s ->
+    r < rr_cap s -> exists kv vv, nth r (rr_slots s) None = Some (kv, vv).
+  Proof.
+    intros t s r I Hfull Hr. destruct (rr_inv_in_open t s r I Hr) as [Hp Hpn].
+    destruct I as (Hc1 & Hls & Hlo & Hob & Hoi & Hec & Hiff & Hnd & Hlen).
+    assert (N : nth r (rr_slots s) None <> None).
+    { rewrite <- Hpn. apply Hiff; lia. }
+    destruct (nth r (rr_slots s) None) as [[kv vv]|]; [eauto|congruence].
+  Qed.
+
+  (* the invariant in its "permutation / back-pointer" reading *)
+  Lemma rr_inv_perm : forall t (s : rr K V), rr_inv t s ->
+    Permutation (rr_open s) (seq 0 (rr_cap s)) /\ NoDup (rr_open s) /\
+    (forall i, i < rr_cap s ->
+               (nth i (rr_slots s) None <> None <-> index_of i (rr_open s) < rr_end s)).
+  Proof.
+    intros t s I.
+    assert (I0 := I).
+    destruct I as (Hc1 & Hls & Hlo & Hob & Hoi & Hec & Hiff & Hnd & Hlen).
+    assert (ND : NoDup (rr_open s)).
+    { apply (NoDup_nth (rr_open s) 0). intros a b Ha Hb. apply Hoi; lia. }
+    split; [|split; [exact ND|]].
+    - apply NoDup_Permutation; [exact ND|apply seq_NoDup|].
+      intros x. rewrite in_seq. split.
+      + intros Hx. apply (In_nth _ _ 0) in Hx. destruct Hx as (p & Hp & E). subst x.
+        specialize (Hob p). lia.
+      + intros Hx. eapply perm_nth_surj; eauto. lia.
+    - intros i Hi. destruct (rr_inv_in_open t s i I0 Hi) as [Hp Hpn].
+      rewrite <- (Hiff _ Hp), Hpn. reflexivity.
+  Qed.
+
+  (* do_erase on an in-use slot *)
+  Lemma erase_slot_spec : forall t t' (s : rr K V) i ki vi,
+    rr_inv t s -> nth i (rr_slots s) None = Some (ki, vi) ->
+    rr_inv t' (rr_erase_slot s i) /\ rr_cap (rr_erase_slot s i) = rr_cap s /\
+    S (rr_end (rr_erase_slot s i)) = rr_end s /\
+    rr_get (rr_erase_slot s i) ki = None /\
+    (forall k', k' <> ki -> rr_get (rr_erase_slot s i) k' = rr_get s k').
+  Proof.
+    intros t t' s i ki vi I Hnth.
+    assert (Hi : i < rr_cap s).
+    { destruct I as (_ & Hls & _). rewrite <- Hls. eapply nth_some_lt; eauto. }
+    destruct (rr_inv_in_open t s i I Hi) as [Hp Hpn].
+    destruct I as (Hc1 & Hls & Hlo & Hob & Hoi & Hec & Hiff & Hnd & Hlen).
+    set (p := index_of i (rr_open s)) in *.
+    assert (Hpe : p < rr_end s).
+    { apply Hiff; auto. rewrite Hpn, Hnth. discriminate. }
+    set (last := rr_end s - 1).
+    set (s' := rr_erase_slot s i).
+    assert (Hopen' : forall q, nth q (rr_open s') 0 =
+              if q =? last then nth p (rr_open s) 0
+              else if q =? p then nth last (rr_open s) 0 else nth q (rr_open s) 0).
+    { intros q. unfold s', rr_erase_slot; simpl. fold p. fold last.
+      destruct (Nat.eqb_spec p last) as [E|NE].
+      - destruct (Nat.eqb_spec q last) as [E1|NE1]; [congruence|].
+        destruct (Nat.eqb_spec q p) as [E2|NE2]; [lia|reflexivity].
+      - rewrite nth_swap_nth by lia. reflexivity. }
+    assert (Hl' : length (rr_open s') = rr_cap s).
+    { unfold s', rr_erase_slot; simpl. destruct (index_of i (rr_open s) =? rr_end s - 1); auto.
+      rewrite swap_nth_length. auto. }
+    assert (Hs' : rr_slots s' = upd_nth i None (rr_slots s)) by reflexivity.
+    assert (He' : rr_end s' = last) by reflexivity.
+    assert (Hc' : rr_cap s' = rr_cap s) by reflexivity.
+    clearbody s'.
+    destruct (slot_keys_erase _ _ _ _ Hnd Hnth) as (ND' & Len' & NI').
+    split; [|split; [|split; [|split]]].
+    - unfold rr_inv. rewrite Hc', Hs', He'.
+      split; [auto|]. split; [rewrite upd_nth_length; auto|]. split; [auto|].
+      split; [|split; [|split; [|split; [|split]]]].
+      + intros q Hq. rewrite Hopen'.
+        destruct (Nat.eqb_spec q last); [apply Hob; lia|].
+        destruct (Nat.eqb_spec q p); apply Hob; lia.
+      + intros q1 q2 H1 H2. rewrite !Hopen'.
+        destruct (Nat.eqb_spec q1 last), (Nat.eqb_spec q1 p),
+                 (Nat.eqb_spec q2 last), (Nat.eqb_spec q2 p); intros E; try lia;
+          apply Hoi in E; lia.
+      + lia.
+      + intros q Hq. rewrite Hopen'.
+        destruct (Nat.eqb_spec q last) as [E1|NE1].
+        * rewrite Hpn, nth_upd_nth_eq by lia. split; [congruence|lia].
+        * destruct (Nat.eqb_spec q p) as [E2|NE2].
+          -- assert (NJ : nth last (rr_open s) 0 <> i).
+             { intros E. rewrite <- Hpn in E. apply Hoi in E; lia. }
+             rewrite nth_upd_nth_neq by auto. rewrite Hiff by lia. lia.
+          -- assert (NJ : nth q (rr_open s) 0 <> i).
+             { intros E. rewrite <- Hpn in E. apply Hoi in E; lia. }
+             rewrite nth_upd_nth_neq by auto. rewrite Hiff by lia. lia.
+      + exact ND'.
+      + lia.
+    - exact Hc'.
+    - rewrite He'. lia.
+    - apply rr_get_none_iff. rewrite Hs'. exact NI'.
+    - intros k' Nk. apply rr_get_congr. rewrite Hs'. apply lookup_upd_other.
+      + intros v. rewrite Hnth. congruence.
+      + intros v. discriminate.
+  Qed.
+
+  (* claiming the first free slot of the open list for a new key *)
+  Lemma claim_spec : forall t t' (s : rr K V) k v,
+    rr_inv t s -> rr_end s < rr_cap s -> rr_get s k = None ->
+    let s' := {| rr_cap := rr_cap s;
+                 rr_slots := upd_nth (nth (rr_end s) (rr_open s) 0) (Some (k, v)) (rr_slots s);
+                 rr_open := rr_open s; rr_end := S (rr_end s) |} in
+    rr_inv t' s' /\ rr_get s' k = Some (v, None) /\
+    (forall k', k' <> k -> rr_get s' k' = rr_get s k').
+  Proof.
+    intros t t' s k v (Hc1 & Hls & Hlo & Hob & Hoi & Hec & Hiff & Hnd & Hlen) Hlt Hg s'.
+    set (idx := nth (rr_end s) (rr_open s) 0) in *.
+    assert (Hidx : idx < rr_cap s) by (apply Hob; lia).
+    assert (Hfree : nth idx (rr_slots s) None = None).
+    { destruct (nth idx (rr_slots s) None) eqn:E; auto.
+      exfalso. assert (L : rr_end s < rr_end s); [|lia]. apply Hiff; [lia|].
+      fold idx. congruence. }
+    apply rr_get_none_iff in Hg.
+    destruct (slot_keys_claim (rr_slots s) idx k v Hnd) as [ND' Len']; auto; try lia.
+    assert (I' : rr_inv t' s').
+    { unfold rr_inv, s'; simpl. rewrite upd_nth_length.
+      split; [auto|]. split; [auto|]. split; [auto|]. split; [auto|]. split; [auto|].
+      split; [lia|]. split; [|split; [auto|lia]].
+      intros p Hp. destruct (Nat.eq_dec (nth p (rr_open s) 0) idx) as [E|NE].
+      - assert (p = rr_end s) by (apply Hoi; auto; lia). subst p.
+        rewrite E, nth_upd_nth_eq by lia. split; [lia|congruence].
+      - rewrite nth_upd_nth_neq by auto. rewrite Hiff by auto.
+        assert (p <> rr_end s) by (intros E; apply NE; subst p; reflexivity). lia. }
+    split; [exact I'|]. split.
+    - apply (rr_get_nth s' idx); [exact ND'|]. unfold s'; simpl. apply nth_upd_nth_eq. lia.
+    - intros k' Nk. apply rr_get_congr. unfold s'; simpl. apply lookup_upd_other.
+      + intros v'. rewrite Hfree. discriminate.
+      + intros v' E. inversion E. congruence.
+  Qed.
+
+  (* overwriting the value of a resident key in place *)
+  Lemma update_spec : forall t t' (s : rr K V) k v i v0,
+    rr_inv t s -> nth i (rr_slots s) None = Some (k, v0) ->
+    let s' := {| rr_cap := rr_cap s; rr_slots := upd_nth i (Some (k, v)) (rr_slots s);
+                 rr_open := rr_open s; rr_end := rr_end s |} in
+    rr_inv t' s' /\ rr_get s' k = Some (v, None) /\
+    (forall k', k' <> k -> rr_get s' k' = rr_get s k').
+  Proof.
+    intros t t' s k v i v0 (Hc1 & Hls & Hlo & Hob & Hoi & Hec & Hiff & Hnd & Hlen) Hnth s'.
+    assert (Hi : i < length (rr_slots s)) by (eapply nth_some_lt; eauto).
+    pose proof (slot_keys_update (rr_slots s) i k v v0 Hnth) as SK.
+    assert (I' : rr_inv t' s').
+    { unfold rr_inv, s'; simpl. rewrite upd_nth_length, SK.
+      split; [auto|]. split; [auto|]. split; [auto|]. split; [auto|]. split; [auto|].
+      split; [lia|]. split; [|split; auto].
+      intros p Hp. destruct (Nat.eq_dec (nth p (rr_open s) 0) i) as [E|NE].
+      - rewrite E, nth_upd_nth_eq by lia. rewrite <- (Hiff p Hp), E, Hnth.
+        split; congruence.
+      - rewrite nth_upd_nth_neq by auto. apply Hiff; auto. }
+    split; [exact I'|]. split.
+    - apply (rr_get_nth s' i).
+      + unfold s'; simpl. rewrite SK. exact Hnd.
+      + unfold s'; simpl. apply nth_upd_nth_eq. lia.
+    - intros k' Nk. apply rr_get_congr. unfold s'; simpl. apply lookup_upd_other.
+      + intros v'. rewrite Hnth. congruence.
+      + intros v' E. inversion E. congruence.
+  Qed.
+
+  (* ---------------- do_insert_update and erase: full effect on the content ------------- *)
+  Lemma rr_ins_spec : forall t t' (s : rr K V) k v a rnd s' b rnd',
+    rr_inv t s -> rr_rnd_ok s rnd -> rr_ins s k v a rnd = (s', b, rnd') ->
+    rr_inv t' s' /\ rr_cap s' = rr_cap s /\
+    ( (b = false /\ s' = s /\ rnd' = rnd /\
+         ((rr_get s k <> None /\ a_upd a = false) \/ (rr_get s k = None /\ a_ins a = false)))
+    \/ (b = true /\ rr_get s k <> None /\ a_upd a = true /\ rr_end s' = rr_end s /\ rnd' = rnd /\
+         rr_get s' k = Some (v, None) /\ (forall k', k' <> k -> rr_get s' k' = rr_get s k'))
+    \/ (b = true /\ rr_get s k = None /\ a_ins a = true /\ rr_end s < rr_cap s /\
+         rr_end s' = S (rr_end s) /\ rnd' = rnd /\
+         rr_get s' k = Some (v, None) /\ (forall k', k' <> k -> rr_get s' k' = rr_get s k'))
+    \/ (b = true /\ rr_get s k = None /\ a_ins a = true /\ rr_end s = rr_cap s /\
+         rr_end s' = rr_cap s /\ rnd' = tl rnd /\ rr_get s' k = Some (v, None) /\
+         exists kv vv, hd 0 rnd < rr_cap s /\
+           nth (hd 0 rnd) (rr_slots s) None = Some (kv, vv) /\ kv <> k /\
+           rr_get s kv = Some (vv, None) /\ rr_get s' kv = None /\
+           (forall k', k' <> k -> k' <> kv -> rr_get s' k' = rr_get s k')) ).
+  Proof.
+    intros t t' s k v a rnd s' b rnd' I Hrnd E. unfold rr_ins in E.
+    destruct (rr_lookup s k) as [[i v0]|] eqn:L.
+    - assert (Hnth : nth i (rr_slots s) None = Some (k, v0)).
+      { unfold rr_lookup in L. apply lookup_from_some in L. destruct L as [_ L].
+        rewrite Nat.sub_0_r in L. exact L. }
+      assert (Hg : rr_get s k <> None).
+      { unfold rr_get, rr_find. rewrite L. discriminate. }
+      destruct (a_upd a) eqn:Ea.
+      + injection E as Es Eb Er. subst s' b rnd'.
+        destruct (update_spec t t' s k v i v0 I Hnth) as (I' & G1 & G2).
+        split; [exact I'|]. split; [reflexivity|]. right; left.
+        split; [reflexivity|]. split; [exact Hg|]. split; [reflexivity|].
+        split; [reflexivity|]. split; [reflexivity|]. split; [exact G1|exact G2].
+      + injection E as Es Eb Er. subst s' b rnd'.
+        split; [exact I|]. split; [reflexivity|]. left. auto 10.
+    - assert (Hg : rr_get s k = None).
+      { unfold rr_get, rr_find. rewrite L. reflexivity. }
+      destruct (a_ins a) eqn:Ea.
+      + destruct (Nat.leb_spec (rr_cap s) (rr_end s)) as [Hfull|Hnf].
+        * assert (Hend : rr_end s = rr_cap s).
+          { destruct I as (_ & _ & _ & _ & _ & Hec & _). lia. }
+          assert (Hc1 : 1 <= rr_cap s) by (destruct I as (Hc1 & _); exact Hc1).
+          destruct (Nat.ltb_spec 0 (rr_end s)) as [Hpos|Hz]; [|lia].
+          destruct (Hrnd Hfull) as (r & rest & Er & Hr). subst rnd.
+          simpl hd in *. simpl tl in *.
+          assert (Hrc : r < rr_cap s) by lia.
+          destruct (rr_inv_full_slot t s r I Hend Hrc) as (kv & vv & Hv).
+          destruct (erase_slot_spec t t s r kv vv I Hv) as (I1 & C1 & E1 & G1 & F1).
+          assert (Gkv : rr_get s kv = Some (vv, None)).
+          { eapply rr_get_nth; eauto. destruct I as (_ & _ & _ & _ & _ & _ & _ & Hnd & _). exact Hnd. }
+          assert (Nk : kv <> k) by (intros Ek; subst kv; congruence).
+          set (s1 := rr_erase_slot s r) in *.
+          cbv beta iota zeta in E. injection E as Es Eb Er. subst s' b rnd'.
+          destruct (claim_spec t t' s1 k v I1) as (I' & G' & F').
+          { lia. }
+          { rewrite F1 by auto. exact Hg. }
+          split; [exact I'|]. split; [exact C1|]. right; right; right.
+          split; [reflexivity|]. split; [exact Hg|]. split; [reflexivity|].
+          split; [exact Hend|]. split; [simpl; lia|]. split; [reflexivity|].
+          split; [exact G'|]. exists kv, vv.
+          split; [exact Hrc|]. split; [exact Hv|]. split; [exact Nk|]. split; [exact Gkv|].
+          split.
+          -- rewrite F' by auto. exact G1.
+          -- intros k' N1 N2. rewrite F' by auto. apply F1; auto.
+        * injection E as Es Eb Er. subst s' b rnd'.
+          destruct (claim_spec t t' s k v I Hnf Hg) as (I' & G' & F').
+          split; [exact I'|]. split; [reflexivity|]. right; right; left.
+          split; [reflexivity|]. split; [exact Hg|]. split; [reflexivity|].
+          split; [exact Hnf|]. split; [reflexivity|]. split; [reflexivity|].
+          split; [exact G'|exact F'].
+      + injection E as Es Eb Er. subst s' b rnd'.
+        split; [exact I|]. split; [reflexivity|]. left. auto 10.
+  Qed.
+
+  Lemma rr_erase_spec : forall t t' (s : rr K V) k s' b,
+    rr_inv t s -> rr_erase s k = (s', b) ->
+    rr_inv t' s' /\ rr_cap s' = rr_cap s /\ rr_get s' k = None /\
+    (forall k', k' <> k -> rr_get s' k' = rr_get s k') /\
+    (b = true -> rr_get s k <> None /\ S (rr_end s') = rr_end s) /\
+    (b = false -> s' = s /\ rr_get s k = None).
+  Proof.
+    intros t t' s k s' b I E. unfold rr_erase in E.
+    destruct (rr_lookup s k) as [[i v0]|] eqn:L.
+    - assert (Hnth : nth i (rr_slots s) None = Some (k, v0)).
+      { unfold rr_lookup in L. apply lookup_from_some in L. destruct L as [_ L].
+        rewrite Nat.sub_0_r in L. exact L. }
+      assert (Hg : rr_get s k <> None).
+      { unfold rr_get, rr_find. rewrite L. discriminate. }
+      injection E as Es Eb. subst s' b.
+      destruct (erase_slot_spec t t' s i k v0 I Hnth) as (I1 & C1 & E1 & G1 & F1).
+      split; [exact I1|]. split; [exact C1|]. split; [exact G1|]. split; [exact F1|].
+      split; [auto|discriminate].
+    - assert (Hg : rr_get s k = None).
+      { unfold rr_get, rr_find. rewrite L. reflexivity. }
+      injection E as Es Eb. subst s' b.
+      split; [exact I|]. split; [reflexivity|]. split; [exact Hg|]. split; [auto|].
+      split; [discriminate|auto].
+  Qed.
+
+  Lemma eqb_false_ne : forall a b : K, eqb a b = false -> a <> b.
+  Proof. intros a b E. destruct (eqb_spec a b); congruence. Qed.
+
+  Lemma lost_live_frame : forall (g g' : amap K V) now k, g' k = g k -> ~ lost_live g g' now k.
+  Proof. intros g g' now k E [(v & d & G & _) N]. congruence. Qed.
+
+  (* ---------------- the ModelOK fields ---------------- *)
+  Lemma rr_ok_keys_get : forall t (s : rr K V) k, rr_inv t s ->
+    (In k (slot_keys (rr_slots s)) <-> rr_get s k <> None).
+  Proof.
+    intros t s k _. pose proof (rr_get_none_iff s k) as E. split.
+    - intros I N. apply E in N. auto.
+    - intros N. destruct (in_dec (fun a b => reflect_dec _ _ (eqb_spec a b)) k (slot_keys (rr_slots s))) as [I|NI]; auto.
+      exfalso. apply N. apply E. exact NI.
+  Qed.
+
+  Lemma rr_ok_inv_step : forall t (s : rr K V) o now rnd s' r,
+    rr_inv t s -> (t <= now)%Z -> single o = true -> rr_rnd_ok s rnd ->
+    rr_step s o now rnd = (s', r) -> rr_inv now s' /\ rr_cap s' = rr_cap s.
+  Proof.
+    intros t s o now rnd s' r I Ht Hs Hrnd E.
+    destruct o; try discriminate Hs; unfold rr_step in E;
+      try (inversion E; subst; split; [exact I|reflexivity]).
+    - destruct (rr_ins s k v a rnd) as [[s1 b] rnd1] eqn:EI. inversion E; subst.
+      destruct (rr_ins_spec t now _ _ _ _ _ _ _ _ I Hrnd EI) as (I' & C' & _). auto.
+    - destruct (rr_erase s k) as [s1 b] eqn:EE. inversion E; subst.
+      destruct (rr_erase_spec t now _ _ _ _ I EE) as (I' & C' & _). auto.
+  Qed.
+
+  Lemma rr_ok_no_appear : forall t (s : rr K V) o now rnd s' r k',
+    rr_inv t s -> (t <= now)%Z -> single o = true -> rr_rnd_ok s rnd ->
+    rr_step s o now rnd = (s', r) -> touches o k' = false ->
+    rr_get s' k' <> None -> rr_get s' k' = rr_get s k'.
+  Proof.
+    intros t s o now rnd s' r k' I Ht Hs Hrnd E Htc Hg.
+    destruct o; try discriminate Hs; try discriminate Htc; unfold rr_step in E;
+      try (inversion E; subst; reflexivity).
+    - simpl in Htc. apply eqb_false_ne in Htc.
+      destruct (rr_ins s k v a rnd) as [[s1 b] rnd1] eqn:EI. inversion E; subst.
+      destruct (rr_ins_spec t now _ _ _ _ _ _ _ _ I Hrnd EI) as (_ & _ & [C|[C|[C|C]]]).
+      + destruct C as (_ & -> & _). reflexivity.
+      + destruct C as (_ & _ & _ & _ & _ & _ & F). apply F. congruence.
+      + destruct C as (_ & _ & _ & _ & _ & _ & _ & F). apply F. congruence.
+      + destruct C as (_ & _ & _ & _ & _ & _ & _ & kv & vv & _ & _ & _ & _ & G & F).
+        destruct (eqb_spec k' kv) as [Ek|Nk]; [subst k'; contradiction|].
+        apply F; congruence.
+    - simpl in Htc. apply eqb_false_ne in Htc.
+      destruct (rr_erase s k) as [s1 b] eqn:EE. inversion E; subst.
+      destruct (rr_erase_spec t now _ _ _ _ I EE) as (_ & _ & _ & F & _). apply F. congruence.
+  Qed.
+
+  Lemma rr_ok_loss : forall t (s : rr K V) o now rnd s' r k',
+    rr_inv t s -> (t <= now)%Z -> single o = true -> rr_rnd_ok s rnd ->
+    rr_step s o now rnd = (s', r) -> touches o k' = false ->
+    lost_live (rr_get s) (rr_get s') now k' ->
+    true = true /\
+    (exists ttl k v a, o = Insert ttl k v a /\ r = RB true /\ rr_get s k = None) /\
+    rr_end s = rr_cap s /\ rr_end s' = rr_cap s /\
+    (forall k'', ~ deadk (rr_get s) now k'') /\
+    (forall k'', touches o k'' = false -> lost_live (rr_get s) (rr_get s') now k'' -> k'' = k').
+  Proof.
+    intros t s o now rnd s' r k' I Ht Hs Hrnd E Htc HL.
+    destruct o; try discriminate Hs; try discriminate Htc; unfold rr_step in E;
+      try (inversion E; subst; exfalso; revert HL; apply lost_live_frame; reflexivity).
+    - simpl in Htc. apply eqb_false_ne in Htc.
+      destruct (rr_ins s k v a rnd) as [[s1 b] rnd1] eqn:EI. inversion E; subst.
+      destruct (rr_ins_spec t now _ _ _ _ _ _ _ _ I Hrnd EI) as (_ & _ & [C|[C|[C|C]]]).
+      + destruct C as (_ & -> & _). exfalso; revert HL; apply lost_live_frame; reflexivity.
+      + destruct C as (_ & _ & _ & _ & _ & _ & F).
+        exfalso; revert HL; apply lost_live_frame. apply F. congruence.
+      + destruct C as (_ & _ & _ & _ & _ & _ & _ & F).
+        exfalso; revert HL; apply lost_live_frame. apply F. congruence.
+      + destruct C as (-> & Gk & _ & Hfull & Hfull' & _ & _ & kv & vv & _ & _ & _ & _ & G & F).
+        assert (U : forall k'', k'' <> k -> lost_live (rr_get s) (rr_get s') now k'' -> k'' = kv).
+        { intros k'' N1 HL'. destruct (eqb_spec k'' kv) as [Ek|Nk]; auto.
+          exfalso; revert HL'; apply lost_live_frame. apply F; auto. }
+        split; [reflexivity|]. split; [exists ttl, k, v, a; auto|].
+        split; [exact Hfull|]. split; [exact Hfull'|]. split; [intros k''; apply rr_no_deadk|].
+        intros k'' Htc' HL'. simpl in Htc'. apply eqb_false_ne in Htc'.
+        rewrite (U k'), (U k''); auto; congruence.
+    - simpl in Htc. apply eqb_false_ne in Htc.
+      destruct (rr_erase s k) as [s1 b] eqn:EE. inversion E; subst.
+      destruct (rr_erase_spec t now _ _ _ _ I EE) as (_ & _ & _ & F & _).
+      exfalso; revert HL; apply lost_live_frame. apply F. congruence.
+  Qed.
+
+  Lemma rr_ok_ins : forall t (s : rr K V) ttl k v a now rnd s' r,
+    rr_inv t s -> (t <= now)%Z -> rr_rnd_ok s rnd ->
+    rr_step s (Insert ttl k v a) now rnd = (s', r) ->
+    exists b, r = RB b /\
+      (livek (rr_get s) now k -> b = a_upd a) /\
+      (rr_get s k = None -> b = a_ins a) /\
+      (deadk (rr_get s) now k -> (a_ins a = true -> b = true) /\
+                                 (b = true -> a_ins a = true \/ a_upd a = true)) /\
+      (b = true -> rr_get s' k = Some (v, @None Z)) /\
+      (b = false -> keeps (rr_get s) (rr_get s') now k) /\
+      (true = true -> b = true -> rr_get s k = None ->
+         rr_end s' = if rr_end s <? rr_cap s then S (rr_end s) else rr_cap s).
+  Proof.
+    intros t s ttl k v a now rnd s' r I Ht Hrnd E. unfold rr_step in E.
+    destruct (rr_ins s k v a rnd) as [[s1 b] rnd1] eqn:EI. inversion E; subst.
+    exists b. split; [reflexivity|].
+    assert (LV : livek (rr_get s') now k -> rr_get s' k <> None).
+    { intros (v' & d & G & _). congruence. }
+    assert (LK : livek (rr_get s) now k -> rr_get s k <> None).
+    { intros (v' & d & G & _). congruence. }
+    split; [|split; [|split; [intros D; exfalso; revert D; apply rr_no_deadk|]]].
+    - intros Hl. apply LK in Hl.
+      destruct (rr_ins_spec t now _ _ _ _ _ _ _ _ I Hrnd EI) as (_ & _ & [C|[C|[C|C]]]).
+      + destruct C as (-> & _ & _ & [[_ Ea]|[G _]]); congruence.
+      + destruct C as (-> & _ & Ea & _). congruence.
+      + destruct C as (_ & G & _). congruence.
+      + destruct C as (_ & G & _). congruence.
+    - intros Hn.
+      destruct (rr_ins_spec t now _ _ _ _ _ _ _ _ I Hrnd EI) as (_ & _ & [C|[C|[C|C]]]).
+      + destruct C as (-> & _ & _ & [[G _]|[_ Ea]]); congruence.
+      + destruct C as (_ & G & _). congruence.
+      + destruct C as (-> & _ & Ea & _). congruence.
+      + destruct C as (-> & _ & Ea & _). congruence.
+    - destruct (rr_ins_spec t now _ _ _ _ _ _ _ _ I Hrnd EI) as (_ & _ & [C|[C|[C|C]]]).
+      + destruct C as (-> & -> & _). split; [discriminate|]. split; [left; reflexivity|discriminate].
+      + destruct C as (-> & G & _ & _ & _ & G' & _).
+        split; [auto|]. split; [discriminate|]. intros _ _ Hn. congruence.
+      + destruct C as (-> & _ & _ & Hlt & He & _ & G' & _).
+        split; [auto|]. split; [discriminate|]. intros _ _ _.
+        destruct (Nat.ltb_spec (rr_end s) (rr_cap s)); lia.
+      + destruct C as (-> & _ & _ & Hfull & He & _ & G' & _).
+        split; [auto|]. split; [discriminate|]. intros _ _ _.
+        destruct (Nat.ltb_spec (rr_end s) (rr_cap s)); lia.
+  Qed.
+
+  Lemma rr_ok_erase : forall t (s : rr K V) k now rnd s' r,
+    rr_inv t s -> (t <= now)%Z -> rr_rnd_ok s rnd ->
+    rr_step s (Erase k) now rnd = (s', r) ->
+    exists b, r = RB b /\ rr_get s' k = None /\
+      (livek (rr_get s) now k -> b = true) /\ (b = true -> rr_get s k <> None).
+  Proof.
+    intros t s k now rnd s' r I Ht Hrnd E. unfold rr_step in E.
+    destruct (rr_erase s k) as [s1 b] eqn:EE. inversion E; subst.
+    destruct (rr_erase_spec t now _ _ _ _ I EE) as (_ & _ & G & _ & Bt & Bf).
+    exists b. split; [reflexivity|]. split; [exact G|]. split.
+    - intros (v' & d & Gk & _). destruct b; auto. destruct (Bf eq_refl) as [_ N]. congruence.
+    - intros Eb. apply Bt; auto.
+  Qed.
 
   Global Instance rr_ok : ModelOK rr_model.
-  Admitted.
+  Proof.
+    constructor; simpl.
+    - intros t s (_ & _ & _ & _ & _ & _ & _ & Hnd & _). exact Hnd.
+    - exact rr_ok_keys_get.
+    - intros t s (_ & _ & _ & _ & _ & _ & _ & _ & Hlen). symmetry. exact Hlen.
+    - intros t s (_ & _ & _ & _ & _ & Hec & _) _. exact Hec.
+    - intros t t' s I _. exact I.
+    - intros t s now k _ _. apply rr_view_eq.
+    - exact rr_ok_inv_step.
+    - exact rr_ok_no_appear.
+    - exact rr_ok_loss.
+    - intros t s k pk now rnd s' r _ _ _ E. inversion E; subst. split; [reflexivity|].
+      unfold rr_view, rr_get. intros ->. reflexivity.
+    - intros t s k pk now rnd s' r _ _ _ E. inversion E; subst. auto.
+    - exact rr_ok_ins.
+    - exact rr_ok_erase.
+    - intros t s now rnd s' r _ _ _ E. inversion E; subst. auto.
+    - intros t s now rnd s' r _ _ _ E. inversion E; subst. auto.
+    - reflexivity.
+    - reflexivity.
+    - reflexivity.
+    - intros t s now rnd s' r _ _ E k. inversion E; subst. reflexivity.
+    - intros t s d now rnd s' r _ _ E k. inversion E; subst. reflexivity.
+  Qed.
 
   (* ---------------- C15 ---------------- *)
   Definition rr_victim (s : rr K V) (r : nat) : option K :=
@@ -59,7 +763,21 @@ Section RrFacts.
         rr_victim s r = Some kv /\ kv <> k /\ rr_get s kv <> None /\ rr_get s' kv = None /\
         (forall k', k' <> k -> k' <> kv -> rr_get s' k' = rr_get s k') /\
         rr_get s' k = Some (v, None) /\ rr_end s' = rr_cap s.
-  Admitted.
+  Proof.
+    intros t s ttl k v a now r rest I Hfull Hg Ha Hr.
+    assert (Hrnd : rr_rnd_ok s (r :: rest)).
+    { intros _. exists r, rest. split; [reflexivity|lia]. }
+    unfold rr_step.
+    destruct (rr_ins s k v a (r :: rest)) as [[s1 b] rnd1] eqn:EI.
+    destruct (rr_ins_spec t t _ _ _ _ _ _ _ _ I Hrnd EI) as (_ & _ & [C|[C|[C|C]]]).
+    - destruct C as (_ & _ & _ & [[G _]|[_ Ea]]); congruence.
+    - destruct C as (_ & G & _). congruence.
+    - destruct C as (_ & _ & _ & Hlt & _). lia.
+    - destruct C as (-> & _ & _ & _ & He & _ & G' & kv & vv & _ & Hv & Nk & Gkv & G1 & F).
+      simpl hd in *. exists s1, kv. split; [reflexivity|].
+      split; [unfold rr_victim; rewrite Hv; reflexivity|]. split; [exact Nk|].
+      split; [congruence|]. split; [exact G1|]. split; [exact F|]. split; [exact G'|exact He].
+  Qed.
 
   (* when the cache is full the map draw |-> victim is a bijection from [0, size) onto the
      residents: every resident is chosen by exactly one draw (a uniform draw gives a uniform
@@ -70,22 +788,62 @@ Section RrFacts.
       (forall r1 r2 kv, r1 < rr_cap s -> r2 < rr_cap s ->
                         rr_victim s r1 = Some kv -> rr_victim s r2 = Some kv -> r1 = r2) /\
       (forall kv, rr_get s kv <> None -> exists r, r < rr_cap s /\ rr_victim s r = Some kv).
-  Admitted.
+  Proof.
+    intros t s I Hfull.
+    assert (Hnd : NoDup (slot_keys (rr_slots s))).
+    { destruct I as (_ & _ & _ & _ & _ & _ & _ & Hnd & _). exact Hnd. }
+    assert (Hls : length (rr_slots s) = rr_cap s).
+    { destruct I as (_ & Hls & _). exact Hls. }
+    split; [|split].
+    - intros r Hr. destruct (rr_inv_full_slot t s r I Hfull Hr) as (kv & vv & Hv).
+      exists kv. split; [unfold rr_victim; rewrite Hv; reflexivity|].
+      rewrite (rr_get_nth s r kv vv Hnd Hv). discriminate.
+    - intros r1 r2 kv _ _. unfold rr_victim.
+      destruct (nth r1 (rr_slots s) None) as [[k1 v1]|] eqn:E1; [|discriminate].
+      destruct (nth r2 (rr_slots s) None) as [[k2 v2]|] eqn:E2; [|discriminate].
+      intros X1 X2. inversion X1; inversion X2; subst.
+      eapply slots_key_inj; eauto.
+    - intros kv Hg. destruct (rr_get s kv) as [x|] eqn:G; [|congruence].
+      apply rr_get_some in G. destruct G as (i & v & _ & Hv).
+      exists i. split.
+      + rewrite <- Hls. eapply nth_some_lt; eauto.
+      + unfold rr_victim. rewrite Hv. reflexivity.
+  Qed.
 
   (* an insert into a non-full cache evicts nothing and consumes no draw *)
   Theorem rr_no_eviction_when_not_full : forall t (s : rr K V) ttl k v a now rnd s',
       rr_inv t s -> rr_end s < rr_cap s -> rr_get s k = None ->
       rr_step s (Insert ttl k v a) now rnd = (s', RB true) ->
       (forall k', k' <> k -> rr_get s' k' = rr_get s k') /\ rr_end s' = S (rr_end s).
-  Admitted.
+  Proof.
+    intros t s ttl k v a now rnd s' I Hlt Hg E.
+    assert (Hrnd : rr_rnd_ok s rnd) by (intros L; lia).
+    unfold rr_step in E.
+    destruct (rr_ins s k v a rnd) as [[s1 b] rnd1] eqn:EI. inversion E; subst.
+    destruct (rr_ins_spec t t _ _ _ _ _ _ _ _ I Hrnd EI) as (_ & _ & [C|[C|[C|C]]]).
+    - destruct C as (Eb & _). discriminate.
+    - destruct C as (_ & G & _). congruence.
+    - destruct C as (_ & _ & _ & _ & He & _ & _ & F). auto.
+    - destruct C as (_ & _ & _ & Hfull & _). lia.
+  Qed.
 
   (* ---------------- C19 ---------------- *)
   Lemma rr_find_noop : forall (s : rr K V) k pk now rnd, fst (rr_step s (Find k pk) now rnd) = s.
-  Admitted.
+  Proof. reflexivity. Qed.
   Lemma rr_rejected_insert_noop : forall (s : rr K V) ttl k v a now rnd s',
       rr_step s (Insert ttl k v a) now rnd = (s', RB false) -> s' = s.
-  Admitted.
+  Proof.
+    intros s ttl k v a now rnd s'. unfold rr_step, rr_ins.
+    destruct (rr_lookup s k) as [[i v0]|].
+    - destruct (a_upd a); intros E; inversion E; reflexivity.
+    - destruct (a_ins a).
+      + destruct (rr_cap s <=? rr_end s); [destruct (0 <? rr_end s)|]; intros E; inversion E.
+      + intros E; inversion E; reflexivity.
+  Qed.
   Lemma rr_erase_absent_noop : forall (s : rr K V) k now rnd s',
       rr_step s (Erase k) now rnd = (s', RB false) -> s' = s.
-  Admitted.
+  Proof.
+    intros s k now rnd s'. unfold rr_step, rr_erase.
+    destruct (rr_lookup s k) as [[i v0]|]; intros E; inversion E; reflexivity.
+  Qed.
 End RrFacts.
